@@ -114,6 +114,13 @@ add("C16", "B-history(files)", "DESIGN.md 2/C16",
     "All points with <=2 (thorough <=3) axes off their default over ten axes (351 type tuples incl. all 1-3 field tuples, 6 delimiters, 5 markers, fill and cell letters per type incl. YAML-hostile strings, row counts, containers); every single-fault corruption through save, header and on-disk edits must raise SCSVError.",
     "Reference model ref/scsv_ref.py decides representability and the expected read-back.")
 
+
+add("C18", "A-product", "DESIGN.md 2/C18",
+    "bounded exhaustive enumeration of flows x axis pairs x parameters x a 7^3 point grid (Jacobian), and of end points on a 10x10 grid x boxes x strain limits x resampling letters (pathlines), against finite-difference / DOP853 references",
+    "Every grid point of every (flow, axis pair, parameter) letter: gradient callable vs Richardson-extrapolated central differences of the velocity callable, trace, axis conventions; every grid end point x box x strain x steps letter: a pathline is returned, ends at the final location at t=0, "
+    "increasing stamps, follows an independent DOP853 backward integration, stays inside, bounded accumulated strain; strain_increment on the gradient alphabet x dt x scales.",
+    "Reference: scipy DOP853 rtol 1e-10; budgets on calls/CPU per pathline turn non-termination into a reported violation.")
+
 NOT_YET = {}
 
 def main():
